@@ -74,6 +74,11 @@ mpf_eq (mpf_srcptr u, mpf_srcptr v, mp_bitcnt_t n_bits)
   count_leading_zeros (cv, vp[vsize - 1]);
   if (cu != cv)
     return 0;
+  /* Bits beyond the longer operand are zero in both: clamp, so that a huge
+     n_bits ("all bits") neither wraps in the addition below nor makes the
+     loop run over an astronomical range.  */
+  if (n_bits > (mp_bitcnt_t) GMP_NUMB_BITS * MAX (usize, vsize))
+    n_bits = (mp_bitcnt_t) GMP_NUMB_BITS * MAX (usize, vsize);
   n = BITS_TO_LIMBS (n_bits + cu);
   if (n == 0)
     return 1;			/* no bits to compare (n_bits == 0) */
